@@ -162,7 +162,7 @@ type WorkerOut struct {
 	Runs       int               `json:"runs"`
 	FirstSeed  uint64            `json:"first_seed"`
 	WallS      float64           `json:"wall_s"`
-	SimNs      int64             `json:"sim_ns"`
+	SimS       float64           `json:"sim_s"`
 	Steps      int               `json:"steps"`
 	Faults     map[string]int    `json:"faults"`
 	Probes     map[string]int    `json:"probes"`
@@ -231,7 +231,7 @@ func TestEngine(t *testing.T) {
 		_ = os.WriteFile(progress, []byte(fmt.Sprintf("%d\n", seed)), 0o644)
 		res := runSeed(t, eng, seed)
 		out.Runs++
-		out.SimNs += int64(res.Stats.SimTime)
+		out.SimS += res.Stats.SimTime.Seconds()
 		out.Steps += res.Stats.Steps
 		for k, v := range res.Stats.Faults {
 			out.Faults[k] += v
@@ -255,7 +255,7 @@ func TestEngine(t *testing.T) {
 				nfaults += v
 			}
 		}
-		if res.Stats.Reorders > 0 || nfaults > 0 {
+		if res.Stats.Reorders > 0 || nfaults > 0 || res.Stats.NonTrivial {
 			nontriv[mix(res.Stats.SchedHash, res.Stats.StateHash)] = true
 		}
 		if wantLogHash {
